@@ -1,36 +1,105 @@
-use async_graphql_parser::types::Field;
+use std::collections::HashMap;
+
+use async_graphql_parser::{
+    Pos,
+    types::{Field, FragmentSpread, OperationDefinition},
+};
+use async_graphql_value::Name;
 
 use crate::{
     Positioned,
     validation::visitor::{VisitMode, Visitor, VisitorContext},
 };
 
-pub struct DepthCalculate<'a> {
+pub struct DepthCalculate<'ctx, 'a> {
     max_depth: &'a mut usize,
     current_depth: usize,
+    /// How many levels of fields a fragment adds below the place it is spread in.
+    fragment_depths: HashMap<&'ctx str, usize>,
+    /// The spreads whose fragment is being visited: position of the spread, depth
+    /// at the spread, depth of the deepest field met inside the fragment.
+    open_spreads: Vec<(Pos, usize, usize)>,
 }
 
-impl<'a> DepthCalculate<'a> {
+impl<'a> DepthCalculate<'_, 'a> {
     pub fn new(max_depth: &'a mut usize) -> Self {
         Self {
             max_depth,
             current_depth: 0,
+            fragment_depths: Default::default(),
+            open_spreads: Default::default(),
+        }
+    }
+
+    fn reach(&mut self, depth: usize) {
+        *self.max_depth = (*self.max_depth).max(depth);
+        if let Some((_, _, deepest)) = self.open_spreads.last_mut() {
+            *deepest = (*deepest).max(depth);
         }
     }
 }
 
-impl<'ctx> Visitor<'ctx> for DepthCalculate<'_> {
+impl<'ctx> Visitor<'ctx> for DepthCalculate<'ctx, '_> {
     fn mode(&self) -> VisitMode {
         VisitMode::Inline
     }
 
+    fn enter_operation_definition(
+        &mut self,
+        _ctx: &mut VisitorContext<'ctx>,
+        _name: Option<&'ctx Name>,
+        _operation_definition: &'ctx Positioned<OperationDefinition>,
+    ) {
+        // every operation visits the fragments it spreads anew
+        self.fragment_depths.clear();
+    }
+
     fn enter_field(&mut self, _ctx: &mut VisitorContext<'ctx>, _field: &'ctx Positioned<Field>) {
         self.current_depth += 1;
-        *self.max_depth = (*self.max_depth).max(self.current_depth);
+        self.reach(self.current_depth);
     }
 
     fn exit_field(&mut self, _ctx: &mut VisitorContext<'ctx>, _field: &'ctx Positioned<Field>) {
         self.current_depth -= 1;
+    }
+
+    fn enter_fragment_spread(
+        &mut self,
+        _ctx: &mut VisitorContext<'ctx>,
+        fragment_spread: &'ctx Positioned<FragmentSpread>,
+    ) {
+        match self
+            .fragment_depths
+            .get(fragment_spread.node.fragment_name.node.as_str())
+            .copied()
+        {
+            // the fragment has been visited before and is not visited again
+            Some(depth) => self.reach(self.current_depth + depth),
+            None => self.open_spreads.push((
+                fragment_spread.pos,
+                self.current_depth,
+                self.current_depth,
+            )),
+        }
+    }
+
+    fn exit_fragment_spread(
+        &mut self,
+        _ctx: &mut VisitorContext<'ctx>,
+        fragment_spread: &'ctx Positioned<FragmentSpread>,
+    ) {
+        if self
+            .open_spreads
+            .last()
+            .is_some_and(|(pos, _, _)| *pos == fragment_spread.pos)
+            && let Some((_, base, deepest)) = self.open_spreads.pop()
+        {
+            self.fragment_depths.insert(
+                fragment_spread.node.fragment_name.node.as_str(),
+                deepest - base,
+            );
+            self.reach(deepest);
+        }
     }
 }
 
